@@ -80,9 +80,11 @@ type Cfg struct {
 	NTok      int    `json:"n_tokens_min"`
 	NLines    int    `json:"n_lines_min"`
 	ID        string `json:"id"`
-	// LongStay: the shell stays attached (with traffic) for more than 12 s after the listener
+	// LongStay: the shell stays attached (with traffic) for StayMs (17-22 s, some 35 s / 65 s) after the listener
 	// closed, after a half-attached attempt that came and went before it
 	LongStay bool `json:"long_stay"`
+	// StayMs: how long a long-staying shell stays attached after the ready notice
+	StayMs int `json:"stay_ms,omitempty"`
 	// PartialCL: refused POSTs declare a Content-Length, send only part of the body and stay connected
 	PartialCL bool `json:"refused_post_with_content_length"`
 	// OneCPU: the program runs with GOMAXPROCS=1 (a one-core machine or container): goroutines
@@ -175,6 +177,15 @@ func makeCfg0(rng *rand.Rand, i, rot int) Cfg {
 	}
 	if i%10 == 3 && c.Order != "curl" {
 		c.LongStay = true
+		// longer than any grace period of ten or fifteen seconds; every fourth such case (they are
+		// one in ten, so only the thorough tier gets there) stays beyond half a minute or a minute
+		c.StayMs = 17000 + rng.IntN(5000)
+		switch i / 10 % 4 {
+		case 2:
+			c.StayMs = 35000
+		case 3:
+			c.StayMs = 65000
+		}
 		c.Junk, c.JunkWhere = "half-dies", "pre"
 	}
 	c.NTok, c.NLines = 220, 220
@@ -1317,10 +1328,10 @@ func (e *env) fullShell() {
 	if c.Traffic != "trickle" {
 		t.pump(true, true, stop, &wg)
 	}
-	dl := time.Now().Add(boundTraffic * e.mult)
+	dl := time.Now().Add(boundTraffic*e.mult + time.Duration(c.StayMs)*time.Millisecond)
 	for time.Now().Before(dl) {
 		t.mu.Lock()
-		done := t.sent >= c.NTok && t.typed >= c.NLines && t.sentPost >= 60 && t.typedPost >= 60 && (!c.LongStay || time.Since(tReady) > 12*time.Second)
+		done := t.sent >= c.NTok && t.typed >= c.NLines && t.sentPost >= 60 && t.typedPost >= 60 && (!c.LongStay || time.Since(tReady) > time.Duration(c.StayMs)*time.Millisecond)
 		serr := t.sendErr
 		t.mu.Unlock()
 		_, rerr := t.received()
